@@ -75,7 +75,12 @@ def load_known(prop):
         return KnownMap()
     with open(path) as f:
         data = json.load(f)
-    return KnownMap((e['key'], e) for e in data.get('findings', []) if e.get('property') == prop)
+    entries = list(data.get('findings', []))
+    extra = os.environ.get('OMV_KNOWN_EXTRA')     # development aid only: a JSON list of candidate entries
+    if extra and os.path.exists(extra):
+        with open(extra) as f:
+            entries += json.load(f)
+    return KnownMap((e['key'], e) for e in entries if e.get('property') == prop)
 
 
 class KnownMap(dict):
